@@ -137,6 +137,7 @@ func workerMain(args []string) {
 	say("READY")
 	out.Flush()
 	reported := map[string]bool{}
+	dkgWS := map[int]*dkgWorkerState{}
 	runFn := func(ui, k int, minimise bool) {
 		f := u.fns[ui]
 		idx := f.tuples[k]
@@ -184,12 +185,11 @@ func workerMain(args []string) {
 			}
 			say("F")
 			out.Flush()
-		case "K": // K <dkgunit> <deadline-unix> <skipfile>
+		case "X": // X <dkgunit> <skipfile|-> <path>... : expand the states reached by the paths
 			ui, _ := strconv.Atoi(fs[1])
-			dl, _ := strconv.ParseInt(fs[2], 10, 64)
 			skip := map[string]bool{}
-			if len(fs) > 3 {
-				if b, err := os.ReadFile(fs[3]); err == nil {
+			if fs[2] != "-" {
+				if b, err := os.ReadFile(fs[2]); err == nil {
 					for _, l := range strings.Split(string(b), "\n") {
 						if l != "" {
 							skip[l] = true
@@ -198,19 +198,29 @@ func workerMain(args []string) {
 				}
 			}
 			d := u.dkg[ui]
-			st, err := d.explore(skip, time.Unix(dl, 0),
-				func(id string) { say("B 0 %s", id); out.Flush() },
-				func(f dkgFinding) {
-					b, _ := json.Marshal(vmsg{Kind: f.Kind, Key: f.Key, What: f.What, Replay: map[string]any{
-						"unit": d.Name, "n": d.N, "t": d.T, "me": d.Me, "dealer": d.Dealer, "calls": f.Calls, "args_hex": f.Hex, "path": f.Path}})
-					say("V %s", b)
-				})
-			if err != nil {
-				say("H %v", err)
-			} else {
-				b, _ := json.Marshal(st)
-				say("S %s", b)
+			if dkgWS[ui] == nil {
+				dkgWS[ui] = newDKGWorkerState()
 			}
+			st := &chunkStats{Outcomes: map[string]int64{}, PerFn: map[string]int64{}}
+			for k, ps := range fs[3:] {
+				if ps == "-" {
+					ps = ""
+				}
+				path, _ := parsePath(ps)
+				err := d.expand(dkgWS[ui], path, skip, st,
+					func(ai int) { say("B %d %d", k, ai); out.Flush() },
+					func(h [32]byte, ai int) { say("N %x %d %d", h[:16], k, ai) },
+					func(f dkgFinding) {
+						b, _ := json.Marshal(vmsg{Kind: f.Kind, Key: f.Key, What: f.What, Replay: map[string]any{
+							"unit": d.Name, "n": d.N, "t": d.T, "me": d.Me, "dealer": d.Dealer, "calls": f.Calls, "args_hex": f.Hex, "path": f.Path}})
+						say("V %s", b)
+					})
+				if err != nil {
+					say("H %s: %v", d.Name, err)
+				}
+			}
+			b, _ := json.Marshal(st)
+			say("S %s", b)
 			say("F")
 			out.Flush()
 		}
@@ -257,16 +267,17 @@ func oneMain(args []string) {
 type item struct {
 	dkg      bool
 	unit     int
-	from, to int
+	from, to int      // table cases
+	paths    []string // DKG: states to expand (paths from the initial state)
+	level    int
 }
 
 type worker struct {
-	slot    int
-	cmd     *exec.Cmd
-	stdin   io.WriteCloser
-	lines   *bufio.Scanner
-	stderr  *capBuf
-	errDone chan struct{}
+	slot   int
+	cmd    *exec.Cmd
+	stdin  io.WriteCloser
+	lines  *bufio.Scanner
+	stderr *capBuf
 
 	mu       sync.Mutex
 	busy     bool
@@ -289,23 +300,48 @@ func (c *capBuf) Write(p []byte) (int, error) {
 }
 func (c *capBuf) String() string { c.mu.Lock(); defer c.mu.Unlock(); return c.buf.String() }
 
-type parent struct {
-	run  *ev.Run
-	u    *universe
-	tier string
-
-	mu        sync.Mutex
-	queue     []item
-	calls     map[string]int64 // per function
+// dkgRun is the parent's view of one level-synchronous breadth-first exploration: the states
+// of a level are expanded by the workers, the parent de-duplicates the successors by the hash
+// of the real object and forms the next level (for each new state the smallest path).
+type dkgRun struct {
+	level     int
+	pending   int
+	seen      map[string]bool
+	next      map[string]string
+	states    int64
+	trans     int64
+	changed   int64
+	perLevel  []int64
+	stPerLvl  []int64
+	capped    bool
+	skip      []string
 	outcomes  map[string]int64
-	vioHits   map[string]int
-	vioFirst  map[string]bool
-	crashes   int
-	restarts  int
-	dkgSkip   map[int][]string
-	dkgStats  map[string]*dkgStats
-	harnessEr []string
-	samples   int
+	perFn     map[string]int64
+	distinct    int
+	distinctSet map[string]bool
+	completed   int // levels fully expanded
+}
+
+type parent struct {
+	run      *ev.Run
+	u        *universe
+	tier     string
+	deadline time.Time
+	t0       time.Time
+
+	mu          sync.Mutex
+	cond        *sync.Cond
+	queue       []item
+	outstanding int // items handed out and not finished
+	calls       map[string]int64
+	outcomes    map[string]int64
+	vioHits     map[string]int
+	vioFirst    map[string]bool
+	crashes     int
+	dkg         []*dkgRun
+	harnessEr   []string
+	samples     int
+	aborted     bool
 }
 
 func (p *parent) spawn(slot int) (*worker, error) {
@@ -319,7 +355,7 @@ func (p *parent) spawn(slot int) (*worker, error) {
 	if err != nil {
 		return nil, err
 	}
-	w := &worker{slot: slot, cmd: cmd, stdin: stdin, stderr: &capBuf{}, errDone: make(chan struct{})}
+	w := &worker{slot: slot, cmd: cmd, stdin: stdin, stderr: &capBuf{}}
 	cmd.Stderr = w.stderr
 	if err := cmd.Start(); err != nil {
 		return nil, err
@@ -327,8 +363,7 @@ func (p *parent) spawn(slot int) (*worker, error) {
 	w.lines = bufio.NewScanner(stdout)
 	w.lines.Buffer(make([]byte, 1<<22), 1<<22)
 	w.touch()
-	// wait for READY (fixtures built)
-	for w.lines.Scan() {
+	for w.lines.Scan() { // wait for READY (valid fixtures built)
 		l := w.lines.Text()
 		if l == "READY" {
 			return w, nil
@@ -350,33 +385,47 @@ func tail(s string, n int) string {
 	return s[:n/2] + "\n...\n" + s[len(s)-n/2:]
 }
 
+// take blocks until an item is available or all work is finished.
 func (p *parent) take() (item, bool) {
 	p.mu.Lock()
 	defer p.mu.Unlock()
-	if len(p.queue) == 0 {
-		return item{}, false
-	}
-	it := p.queue[0]
-	p.queue = p.queue[1:]
-	return it, true
-}
-
-func (p *parent) pushFront(it item) {
-	p.mu.Lock()
-	p.queue = append([]item{it}, p.queue...)
-	p.mu.Unlock()
-}
-
-func fnOfID(id string) string {
-	if i := strings.IndexByte(id, ':'); i >= 0 && !strings.HasPrefix(id, "dkg:") {
-		return id[:i]
-	}
-	if strings.HasPrefix(id, "dkg:") {
-		if i := strings.IndexByte(id, '/'); i >= 0 {
-			return id[:i]
+	for {
+		if p.aborted {
+			return item{}, false
 		}
+		if len(p.queue) > 0 {
+			it := p.queue[0]
+			p.queue = p.queue[1:]
+			p.outstanding++
+			return it, true
+		}
+		if p.outstanding == 0 {
+			return item{}, false
+		}
+		p.cond.Wait()
 	}
-	return id
+}
+
+func (p *parent) done() {
+	p.mu.Lock()
+	p.outstanding--
+	p.mu.Unlock()
+	p.cond.Broadcast()
+}
+
+func (p *parent) abort(msg string) {
+	p.mu.Lock()
+	p.harnessEr = append(p.harnessEr, msg)
+	p.aborted = true
+	p.mu.Unlock()
+	p.cond.Broadcast()
+}
+
+func (p *parent) pushFront(its ...item) {
+	p.mu.Lock()
+	p.queue = append(append([]item{}, its...), p.queue...)
+	p.mu.Unlock()
+	p.cond.Broadcast()
 }
 
 func (p *parent) violation(v vmsg) {
@@ -420,14 +469,24 @@ func idxString(idx []int) string {
 	return strings.Join(s, ",")
 }
 
-func asanSummary(stderr string) string {
-	for _, l := range strings.Split(stderr, "\n") {
-		if strings.HasPrefix(l, "SUMMARY:") || strings.Contains(l, "ERROR: AddressSanitizer") {
+// deathSummary extracts the one line that characterises why a process died.
+func deathSummary(stderr string) string {
+	lines := strings.Split(stderr, "\n")
+	for _, l := range lines {
+		if strings.HasPrefix(l, "SUMMARY:") {
+			f := strings.Fields(l)
+			if len(f) >= 3 { // SUMMARY: AddressSanitizer: <kind> <location> in <function>
+				s := strings.Join(f[:3], " ")
+				if i := strings.LastIndex(l, " in "); i >= 0 {
+					s += l[i:]
+				}
+				return s
+			}
 			return strings.TrimSpace(l)
 		}
 	}
-	for _, l := range strings.Split(stderr, "\n") {
-		if strings.HasPrefix(l, "fatal error:") || strings.HasPrefix(l, "SIG") || strings.Contains(l, "signal") {
+	for _, l := range lines {
+		if strings.Contains(l, "ERROR: AddressSanitizer") || strings.HasPrefix(l, "fatal error:") || strings.HasPrefix(l, "SIG") || strings.Contains(l, "signal ") {
 			return strings.TrimSpace(l)
 		}
 	}
@@ -460,7 +519,7 @@ func (p *parent) crashFn(ui, k int, announced, stderr string, hung bool) {
 				try[i] = pr.Base
 				d, se := p.isolate("fn", strconv.Itoa(ui), idxString(try))
 				spawns++
-				if d && asanSummary(se) == asanSummary(cstderr) {
+				if d && deathSummary(se) == deathSummary(cstderr) {
 					min, changed = try, true
 				}
 			}
@@ -468,7 +527,7 @@ func (p *parent) crashFn(ui, k int, announced, stderr string, hung bool) {
 		stderr = cstderr
 	}
 	key := kind + ":" + f.Name + ":" + f.classKey(min)
-	what := fmt.Sprintf("worker process died while executing this case (%s); reproduced in isolation: %v", asanSummary(stderr), confirmed)
+	what := fmt.Sprintf("worker process died while executing this case (%s); reproduced in isolation: %v", deathSummary(stderr), confirmed)
 	if hung {
 		what = "case did not terminate within the 300 s guard"
 	}
@@ -477,10 +536,8 @@ func (p *parent) crashFn(ui, k int, announced, stderr string, hung bool) {
 		"args": hexArgs(f, min), "reproduced_in_isolation": confirmed, "stderr": tail(stderr, 6000)}})
 }
 
-func (p *parent) crashDKG(ui int, id, stderr string, hung bool) {
+func (p *parent) crashDKG(ui int, path []int, stderr string, hung bool) {
 	d := p.u.dkg[ui]
-	ps := id[strings.IndexByte(id, '/')+1:]
-	path, _ := parsePath(ps)
 	kind := "crash"
 	if hung {
 		kind = "hang"
@@ -488,7 +545,7 @@ func (p *parent) crashDKG(ui int, id, stderr string, hung bool) {
 	confirmed, cstderr := false, ""
 	spawns := 0
 	if !hung {
-		confirmed, cstderr = p.isolate("dkg", strconv.Itoa(ui), ps)
+		confirmed, cstderr = p.isolate("dkg", strconv.Itoa(ui), pathString(path))
 		spawns++
 	}
 	min := append([]int{}, path...)
@@ -499,7 +556,7 @@ func (p *parent) crashDKG(ui int, id, stderr string, hung bool) {
 				try := append(append([]int{}, min[:i]...), min[i+1:]...)
 				dd, se := p.isolate("dkg", strconv.Itoa(ui), pathString(try))
 				spawns++
-				if dd && asanSummary(se) == asanSummary(cstderr) {
+				if dd && deathSummary(se) == deathSummary(cstderr) {
 					min, changed = try, true
 					break
 				}
@@ -516,7 +573,7 @@ func (p *parent) crashDKG(ui int, id, stderr string, hung bool) {
 	for _, a := range min {
 		hx = append(hx, d.Actions[a].Hex)
 	}
-	what := fmt.Sprintf("worker process died during this DKG call sequence (%s); reproduced in isolation: %v", asanSummary(stderr), confirmed)
+	what := fmt.Sprintf("worker process died during this DKG call sequence (%s); reproduced in isolation: %v", deathSummary(stderr), confirmed)
 	if hung {
 		what = "DKG call did not terminate within the 300 s guard"
 	}
@@ -525,8 +582,99 @@ func (p *parent) crashDKG(ui int, id, stderr string, hung bool) {
 		"first_seen_path": path, "reproduced_in_isolation": confirmed, "stderr": tail(stderr, 6000)}})
 }
 
-// serve runs one worker slot until the queue is empty.
-func (p *parent) serve(slot int, deadline time.Time, wg *sync.WaitGroup, ws []*worker, wsMu *sync.Mutex) {
+const dkgChunkStates = 6
+
+// startLevel queues the expansion of a level (called with p.mu held).
+func (p *parent) startLevelLocked(ui int, frontier []string) {
+	r := p.dkg[ui]
+	var its []item
+	for a := 0; a < len(frontier); a += dkgChunkStates {
+		b := a + dkgChunkStates
+		if b > len(frontier) {
+			b = len(frontier)
+		}
+		its = append(its, item{dkg: true, unit: ui, paths: frontier[a:b], level: r.level})
+	}
+	r.pending = len(its)
+	r.stPerLvl = append(r.stPerLvl, int64(len(frontier)))
+	r.perLevel = append(r.perLevel, 0)
+	p.queue = append(its, p.queue...)
+}
+
+func pathLess(a, b string) bool {
+	pa, _ := parsePath(a)
+	pb, _ := parsePath(b)
+	for i := 0; i < len(pa) && i < len(pb); i++ {
+		if pa[i] != pb[i] {
+			return pa[i] < pb[i]
+		}
+	}
+	return len(pa) < len(pb)
+}
+
+// chunkDone merges the result of one DKG chunk and, when the level is complete, forms the next.
+func (p *parent) chunkDone(it item, succ map[string]string, st *chunkStats, requeue *item) {
+	p.mu.Lock()
+	r := p.dkg[it.unit]
+	if st != nil {
+		r.trans += st.Transitions
+		r.changed += st.Changed
+		r.perLevel[it.level] += st.Transitions
+		for k, v := range st.Outcomes {
+			r.outcomes[k] += v
+		}
+		for k, v := range st.PerFn {
+			r.perFn[k] += v
+		}
+		for _, d := range st.Distinct {
+			p.run.Distinct(p.u.dkg[it.unit].Name + "|" + d)
+			if !r.distinctSet[d] {
+				r.distinctSet[d] = true
+				r.distinct++
+			}
+		}
+	}
+	for h, path := range succ {
+		if r.seen[h] {
+			continue
+		}
+		if old, ok := r.next[h]; !ok || pathLess(path, old) {
+			r.next[h] = path
+		}
+	}
+	if requeue != nil {
+		p.queue = append([]item{*requeue}, p.queue...)
+	} else {
+		r.pending--
+		if r.pending == 0 {
+			r.completed = r.level + 1
+			var frontier []string
+			for h, path := range r.next {
+				r.seen[h] = true
+				frontier = append(frontier, path)
+			}
+			r.states += int64(len(frontier))
+			r.next = map[string]string{}
+			sort.Slice(frontier, func(i, j int) bool { return pathLess(frontier[i], frontier[j]) })
+			r.level++
+			if os.Getenv("C09_DEBUG") != "" {
+				fmt.Fprintf(os.Stderr, "[%6.1fs] %s level %d done, next frontier %d, queue %d\n", time.Since(p.t0).Seconds(), p.u.dkg[it.unit].Name, r.level, len(frontier), len(p.queue))
+			}
+			if r.level < p.u.dkg[it.unit].Depth && len(frontier) > 0 {
+				if time.Now().After(p.deadline) {
+					r.capped = true
+				} else {
+					p.startLevelLocked(it.unit, frontier)
+				}
+			}
+		}
+	}
+	p.mu.Unlock()
+	p.cond.Broadcast()
+}
+
+// serve runs one worker slot until all work is finished.
+func (p *parent) serve(slot int, wg *sync.WaitGroup, ws []*worker, wsMu *sync.Mutex) {
 	defer wg.Done()
 	var w *worker
 	defer func() {
@@ -544,33 +692,46 @@ func (p *parent) serve(slot int, deadline time.Time, wg *sync.WaitGroup, ws []*w
 		if !ok {
 			return
 		}
-		if time.Now().After(deadline) {
+		if time.Now().After(p.deadline) {
 			p.run.MarkCapped()
+			if it.dkg {
+				p.mu.Lock()
+				p.dkg[it.unit].capped = true
+				p.mu.Unlock()
+				p.chunkDone(it, nil, nil, nil)
+			}
+			p.done()
 			continue
 		}
 		if w == nil {
 			var err error
 			w, err = p.spawn(slot)
 			if err != nil {
-				p.mu.Lock()
-				p.harnessEr = append(p.harnessEr, err.Error())
-				p.mu.Unlock()
+				p.done()
+				p.abort(err.Error())
 				return
 			}
 			wsMu.Lock()
 			ws[slot] = w
 			wsMu.Unlock()
 		}
-		skipFile := ""
+		skipFile := "-"
 		if it.dkg {
 			p.mu.Lock()
-			sk := p.dkgSkip[it.unit]
+			sk := append([]string{}, p.dkg[it.unit].skip...)
 			p.mu.Unlock()
 			if len(sk) > 0 {
-				skipFile = fmt.Sprintf("%s/c09-skip-%d-%d", os.TempDir(), os.Getpid(), it.unit)
+				skipFile = fmt.Sprintf("%s/c09-skip-%d-%d-%d", os.TempDir(), os.Getpid(), slot, it.unit)
 				_ = os.WriteFile(skipFile, []byte(strings.Join(sk, "\n")+"\n"), 0o600)
 			}
-			fmt.Fprintf(w.stdin, "K %d %d %s\n", it.unit, deadline.Unix(), skipFile)
+			ps := make([]string, len(it.paths))
+			for i, s := range it.paths {
+				ps[i] = s
+				if s == "" {
+					ps[i] = "-"
+				}
+			}
+			fmt.Fprintf(w.stdin, "X %d %s %s\n", it.unit, skipFile, strings.Join(ps, " "))
 		} else {
 			fmt.Fprintf(w.stdin, "R %d %d %d\n", it.unit, it.from, it.to)
 		}
@@ -578,17 +739,19 @@ func (p *parent) serve(slot int, deadline time.Time, wg *sync.WaitGroup, ws []*w
 		w.busy = true
 		w.lastLine = time.Now()
 		w.mu.Unlock()
-		curK, curID := -1, ""
+		curK, curA, curID := -1, -1, ""
+		inCase := false
 		baseK := -1
 		finished := false
 		var localCalls int64
-		fname := ""
-		if !it.dkg {
-			fname = p.u.fns[it.unit].Name
-		} else {
-			fname = p.u.dkg[it.unit].Name
-		}
 		localOut := map[string]int64{}
+		succ := map[string]string{}
+		var selfs []string
+		var cst *chunkStats
+		var f *fn
+		if !it.dkg {
+			f = p.u.fns[it.unit]
+		}
 		for w.lines.Scan() {
 			l := w.lines.Text()
 			w.touch()
@@ -599,29 +762,47 @@ func (p *parent) serve(slot int, deadline time.Time, wg *sync.WaitGroup, ws []*w
 			case 'B':
 				sp := strings.IndexByte(l[2:], ' ')
 				curK, _ = strconv.Atoi(l[2 : 2+sp])
-				curID = l[3+sp:]
-				if !it.dkg && curK != baseK {
-					baseK = curK
-					f := p.u.fns[it.unit]
-					if !f.isBase(f.tuples[curK]) {
-						p.run.Distinct(curID)
+				inCase = true
+				if it.dkg {
+					curA, _ = strconv.Atoi(l[3+sp:])
+				} else {
+					curID = l[3+sp:]
+					if curK != baseK {
+						baseK = curK
+						if !f.isBase(f.tuples[curK]) {
+							p.run.Distinct(curID)
+						}
 					}
 				}
 			case 'E':
 				localCalls++
 				localOut[l[2:]]++
-				if !it.dkg {
-					p.mu.Lock()
-					if p.samples < 8 && curK > 0 && curK%7 == 3 {
-						p.samples++
-						f := p.u.fns[it.unit]
-						p.mu.Unlock()
-						p.run.Sample(map[string]any{"case": curID, "outcome": l[2:], "args": hexArgs(f, f.tuples[curK])})
-					} else {
-						p.mu.Unlock()
+				p.mu.Lock()
+				if p.samples < 8 && curK > 0 && curK%7 == 3 {
+					p.samples++
+					p.mu.Unlock()
+					p.run.Sample(map[string]any{"case": f.caseID(f.tuples[curK]), "outcome": l[2:], "args": hexArgs(f, f.tuples[curK])})
+				} else {
+					p.mu.Unlock()
+				}
+				inCase = false
+			case 'N': // N <hash> <k> <ai>
+				fs := strings.Fields(l)
+				if len(fs) == 4 {
+					k, _ := strconv.Atoi(fs[2])
+					if fs[3] == "-1" {
+						selfs = append(selfs, fs[1])
+						continue
+					}
+					base := it.paths[k]
+					if base != "" {
+						base += "."
+					}
+					np := base + fs[3]
+					if old, ok := succ[fs[1]]; !ok || pathLess(np, old) {
+						succ[fs[1]] = np
 					}
 				}
-				curID = ""
 			case 'V':
 				var v vmsg
 				if err := json.Unmarshal([]byte(l[2:]), &v); err == nil {
@@ -632,15 +813,11 @@ func (p *parent) serve(slot int, deadline time.Time, wg *sync.WaitGroup, ws []*w
 				p.vioHits[l[2:]]++
 				p.mu.Unlock()
 			case 'H':
-				p.mu.Lock()
-				p.harnessEr = append(p.harnessEr, l[2:])
-				p.mu.Unlock()
+				p.abort(l[2:])
 			case 'S':
-				var st dkgStats
+				var st chunkStats
 				if err := json.Unmarshal([]byte(l[2:]), &st); err == nil {
-					p.mu.Lock()
-					p.dkgStats[fname] = &st
-					p.mu.Unlock()
+					cst = &st
 				}
 			case 'F':
 				finished = true
@@ -653,18 +830,33 @@ func (p *parent) serve(slot int, deadline time.Time, wg *sync.WaitGroup, ws []*w
 		w.busy = false
 		hung := w.hung
 		w.mu.Unlock()
-		p.mu.Lock()
 		if !it.dkg {
-			p.calls[fname] += localCalls
+			p.mu.Lock()
+			p.calls[f.Name] += localCalls
 			for k, v := range localOut {
 				p.outcomes[k] += v
 			}
+			p.mu.Unlock()
 		}
-		p.mu.Unlock()
-		if skipFile != "" {
+		if skipFile != "-" {
 			_ = os.Remove(skipFile)
 		}
+		if it.dkg {
+			p.mu.Lock()
+			for _, h := range selfs {
+				p.dkg[it.unit].seen[h] = true
+				delete(p.dkg[it.unit].next, h)
+			}
+			p.mu.Unlock()
+		}
 		if finished {
+			if os.Getenv("C09_DEBUG") != "" && !it.dkg && it.to == len(f.tuples) {
+				fmt.Fprintf(os.Stderr, "[%6.1fs] table %s last chunk done\n", time.Since(p.t0).Seconds(), f.Name)
+			}
+			if it.dkg {
+				p.chunkDone(it, succ, cst, nil)
+			}
+			p.done()
 			continue
 		}
 		// the worker died (or was killed by the watchdog) before finishing the item
@@ -673,33 +865,36 @@ func (p *parent) serve(slot int, deadline time.Time, wg *sync.WaitGroup, ws []*w
 		w = nil
 		p.mu.Lock()
 		p.crashes++
-		p.restarts++
-		tooMany := p.restarts > 400
+		tooMany := p.crashes > 300
 		p.mu.Unlock()
-		if curID == "" {
-			p.mu.Lock()
-			p.harnessEr = append(p.harnessEr, fmt.Sprintf("worker died outside any announced case (item %+v): %s", it, tail(stderr, 1500)))
-			p.mu.Unlock()
-			return
-		}
-		if tooMany {
-			p.mu.Lock()
-			p.harnessEr = append(p.harnessEr, "more than 400 worker deaths: giving up")
-			p.mu.Unlock()
+		if !inCase || tooMany {
+			if it.dkg {
+				p.chunkDone(it, succ, nil, nil)
+			}
+			p.done()
+			if tooMany {
+				p.abort("more than 300 worker deaths: giving up")
+			} else {
+				p.abort(fmt.Sprintf("worker died outside any announced case (item %+v): %s", it, tail(stderr, 1500)))
+			}
 			return
 		}
 		if it.dkg {
-			p.crashDKG(it.unit, curID, stderr, hung)
+			base, _ := parsePath(it.paths[curK])
+			full := append(base, curA)
+			p.crashDKG(it.unit, full, stderr, hung)
 			p.mu.Lock()
-			p.dkgSkip[it.unit] = append(p.dkgSkip[it.unit], curID)
+			p.dkg[it.unit].skip = append(p.dkg[it.unit].skip, p.u.dkg[it.unit].Name+"/"+pathString(full))
 			p.mu.Unlock()
-			p.pushFront(it)
+			rest := item{dkg: true, unit: it.unit, paths: it.paths[curK:], level: it.level}
+			p.chunkDone(it, succ, nil, &rest)
 		} else {
 			p.crashFn(it.unit, curK, curID, stderr, hung)
 			if curK+1 < it.to {
 				p.pushFront(item{unit: it.unit, from: curK + 1, to: it.to})
 			}
 		}
+		p.done()
 	}
 }
 
@@ -709,11 +904,13 @@ func parentMain() {
 		fmt.Println("C09: replay files name the function, the input classes and the argument bytes; re-run the check to reproduce")
 		os.Exit(0)
 	}
-	run.Budget(150*time.Second, 9*time.Minute)
+	budget := 140 * time.Second
 	tier := "quick"
 	if run.Thorough() {
 		tier = "thorough"
+		budget = 8 * time.Minute
 	}
+	run.Budget(budget, budget)
 	repo := os.Getenv("VERIF_REPO_DIR")
 	if repo == "" {
 		repo = "/repo"
@@ -726,8 +923,10 @@ func parentMain() {
 	if err != nil {
 		run.Fatal("cannot build the case universe: %v", err)
 	}
-	p := &parent{run: run, u: u, tier: tier, calls: map[string]int64{}, outcomes: map[string]int64{}, vioHits: map[string]int{},
-		vioFirst: map[string]bool{}, dkgSkip: map[int][]string{}, dkgStats: map[string]*dkgStats{}}
+	p := &parent{run: run, u: u, tier: tier, deadline: time.Now().Add(budget), calls: map[string]int64{}, outcomes: map[string]int64{},
+		vioHits: map[string]int{}, vioFirst: map[string]bool{}}
+	p.cond = sync.NewCond(&p.mu)
+	p.t0 = time.Now()
 
 	// driver table vs. the current tree
 	covered := map[string]string{}
@@ -775,21 +974,15 @@ func parentMain() {
 	run.Set("drivers_without_function_in_tree", stale)
 	run.Set("files_skipped_by_build_constraints", skippedFiles)
 
-	// work queue: the DKG explorations first (longest), then the table in chunks
+	// work queue: the table in chunks (costly functions first); DKG levels are pushed in front
 	var total int64
-	for i := range u.dkg {
-		p.queue = append(p.queue, item{dkg: true, unit: i})
-	}
 	modes := map[string]string{}
 	planned := map[string]int{}
 	order := make([]int, len(u.fns))
 	for i := range order {
 		order[i] = i
 	}
-	sort.SliceStable(order, func(a, b int) bool {
-		ca, cb := u.fns[order[a]].Cost, u.fns[order[b]].Cost
-		return ca > cb
-	})
+	sort.SliceStable(order, func(a, b int) bool { return u.fns[order[a]].Cost > u.fns[order[b]].Cost })
 	for _, i := range order {
 		f := u.fns[i]
 		modes[f.Name] = f.mode
@@ -811,14 +1004,18 @@ func parentMain() {
 			p.queue = append(p.queue, item{unit: i, from: a, to: b})
 		}
 	}
-	fmt.Printf("C09 %s: %d table functions, %d planned table cases, %d DKG units (depth %d, %d actions each), %d exported functions in tree (%d undriven)\n",
+	for i := range u.dkg {
+		p.dkg = append(p.dkg, &dkgRun{distinctSet: map[string]bool{}, seen: map[string]bool{}, next: map[string]string{}, outcomes: map[string]int64{}, perFn: map[string]int64{}, states: 1})
+		p.startLevelLocked(i, []string{""})
+	}
+	fmt.Printf("C09 %s: %d table functions, %d planned table cases, %d DKG units (depth %d, %d actions per state), %d exported functions in tree (%d undriven)\n",
 		tier, len(u.fns), total, len(u.dkg), u.dkg[0].Depth, len(u.dkg[0].Actions), len(exp), len(undriven))
 
-	deadline := time.Now().Add(150 * time.Second)
-	if run.Thorough() {
-		deadline = time.Now().Add(9 * time.Minute)
+	n := nWorkers
+	if c := runtime.NumCPU(); c < n {
+		n = c
 	}
-	ws := make([]*worker, nWorkers)
+	ws := make([]*worker, n)
 	var wsMu sync.Mutex
 	stopWatch := make(chan struct{})
 	go func() { // non-termination guard
@@ -846,13 +1043,9 @@ func parentMain() {
 		}
 	}()
 	var wg sync.WaitGroup
-	n := nWorkers
-	if c := runtime.NumCPU(); c < n {
-		n = c
-	}
 	for s := 0; s < n; s++ {
 		wg.Add(1)
-		go p.serve(s, deadline, &wg, ws, &wsMu)
+		go p.serve(s, &wg, ws, &wsMu)
 	}
 	wg.Wait()
 	close(stopWatch)
@@ -869,26 +1062,28 @@ func parentMain() {
 	}
 	var states, trans int64
 	dkgSummary := map[string]any{}
-	for name, st := range p.dkgStats {
-		states += st.States
-		trans += st.Transitions
-		evals += st.Transitions
-		for fnn, c := range st.PerFn {
+	for i, r := range p.dkg {
+		name := u.dkg[i].Name
+		states += r.states
+		trans += r.trans
+		evals += r.trans
+		for fnn, c := range r.perFn {
 			perFn[name+"."+fnn] = c
 		}
-		for k, v := range st.Outcomes {
+		for k, v := range r.outcomes {
 			p.outcomes["dkg:"+k] += v
 		}
-		for _, dkey := range st.Distinct {
-			run.Distinct(name + "|" + dkey)
-		}
-		if st.Capped {
+		if r.capped || r.completed < u.dkg[i].Depth && r.pending > 0 {
 			run.MarkCapped()
 		}
-		dkgSummary[name] = map[string]any{"states": st.States, "transitions": st.Transitions, "transitions_per_depth": st.PerDepth, "capped": st.Capped}
+		dkgSummary[name] = map[string]any{"states": r.states, "transitions": r.trans, "state_changing_transitions": r.changed,
+			"states_expanded_per_level": r.stPerLvl, "transitions_per_level": r.perLevel, "levels_completed": r.completed,
+			"capped": r.capped, "transitions_skipped_after_worker_death": len(r.skip), "distinct_call_outcome_pairs": r.distinct}
 	}
-	if len(p.dkgStats) != len(u.dkg) {
-		run.MarkCapped()
+	for name, pl := range planned {
+		if perFn[name] < int64(pl) {
+			run.MarkCapped()
+		}
 	}
 	run.Add("evaluations", evals)
 	run.Add("states", states)
@@ -907,13 +1102,13 @@ func parentMain() {
 	run.Set("rule", "driver table over every exported function/method of crypto, hash and random (checked against go/parser's list of the current tree); per parameter a finite domain by role "+
 		"(byte slices: nil, empty, 1 byte, valid-1, valid, valid+1, 4 KiB, all-0xff of valid length, plus role-specific values; ints: -2^63, -1, 0, 1, boundaries +-1, 255, 256, 2^31 (linear-memory sizes capped at 2^16); "+
 		"enums: -1, 0, each valid, max+1, 2^31; lists: nil, empty, [nil element], mismatched lengths, wrong key type, valid); each function called on the full cross product when <= 20000 tuples, else on every tuple with <= "+
-		strconv.Itoa(u.bound)+" parameters off the valid baseline; stateful objects (threshold inspector/participant, hashers, PRG) additionally after each setup history; DKG: BFS over all call sequences of one real instance up to the depth bound with state de-duplication, "+
-		"3 protocols x 2 roles. A case is distinct/non-trivial = a (function, input-class tuple) that is not the all-valid baseline; for DKG a (call, outcome) pair. Oracle: no recovered Go panic, no worker death/ASan report, termination, "+
-		"error satisfies a documented predicate (plain error for hash/random), documented-invalid length/range not reported as success.")
+		strconv.Itoa(u.bound)+" parameters off the valid baseline; stateful objects (threshold inspector/participant, hashers, PRG) additionally after each setup history; DKG: level-synchronous BFS over all call sequences of one real instance up to the depth bound, "+
+		"successor states de-duplicated by a hash of every field of the real object, 3 protocols x 2 roles. A case is distinct/non-trivial = a (function, input-class tuple) that is not the all-valid baseline; for DKG a (call, outcome) pair. "+
+		"Oracle: no recovered Go panic, no worker death/ASan report, termination, error satisfies a documented predicate (plain error for hash/random), documented-invalid length/range not reported as success.")
 	run.Assume("the C layer is instrumented by -asan (gcc); Go heap redzones make C over-reads of Go buffers visible; inputs are heap allocated",
 		"nil interface / nil callback arguments, UintN(0), linear-memory sizes above 2^16 and no-cgo builds are documented exceptions and are not passed",
 		"methods promoted from embedded standard-library types (hash.Hash, sha3.ShakeHash) that are not part of hash.Hasher are outside the three packages' declared API",
-		"DKG state de-duplication hashes every field of the real instance (dkgsys.InstHash)")
+		"DKG state de-duplication hashes every field of the real instance (dkgsys.InstHash); states are rebuilt in the workers by replaying their path")
 	run.Finish()
 }
 
